@@ -36,6 +36,11 @@ func genC19(r *Rng, tier string, idx int) *Plan {
 		p.SKnobs["policy"] = Pick(r, []string{"allkeys-lfu", "allkeys-random", "volatile-lfu", "allkeys-lru"})
 		p.Knobs["limit"] = int64(r.Range(300, 1500))
 	}
+	if idx%6 == 3 {
+		// no eviction, but a limit: at or above it writes are refused - whatever a refused write did before it was
+		// refused (collections are changed in place), the figure still is that of the dataset
+		p.Knobs["limit"] = int64(r.Range(150, 700))
+	}
 	p.Knobs["dbs"] = int64(r.Range(1, 2))
 	if idx%3 == 2 {
 		// commands of two connections interleaved with each other and with the asynchronous eviction bookkeeping
